@@ -88,6 +88,7 @@ type RunResult struct {
 	BubbleErr    string            `json:"bubble_err,omitempty"`
 	TraceHash    string            `json:"trace_hash"` // hash of scheduling-relevant trace only
 	PoolReissued int               `json:"pool_reissued"`
+	DynReissued  int               `json:"dyn_pool_reissued,omitempty"` // re-issues by pools served through vhook.SPool (join record pools, ...)
 	FinalIDs     map[string]fileID `json:"-"`
 	StartIDs     map[string]fileID `json:"-"`
 	ProcYields   []int             `json:"-"`
@@ -252,6 +253,7 @@ func Execute(t *testing.T, sc *Scenario, dec *Decider, obs ...Observer) (*RunRes
 	res.FinalIDs = statFiles(dir, sc.Files)
 	res.StartIDs = startIDs
 	res.PoolReissued = k.pool.Reissued
+	res.DynReissued = k.pool.DynReissued
 	for _, p := range k.procs {
 		if p.res == nil {
 			p.res = &ProcResult{ErrText: "process did not finish", ExitCode: -1}
